@@ -349,7 +349,9 @@ def compare_values(interp, ctx, name, got, want, depth=0):
             ctx.oblige(name, False, "post", {"got": repr(got)})
         return
     if isinstance(want, Obj):
-        ctx.oblige(f"{name}.same-object", got is want, "post")
+        same = got is want or (isinstance(got, Obj) and getattr(got, "ghost", None) is not None and getattr(want, "ghost", None) is not None
+                               and got.ghost["data"].name == want.ghost["data"].name and got.cls is want.cls)
+        ctx.oblige(f"{name}.same-object", bool(same), "post")
         return
     if isinstance(want, ClassRef):
         ctx.oblige(name, isinstance(got, ClassRef) and got.ci is want.ci, "post")
